@@ -190,6 +190,7 @@ def run(rep, facts, tier):
 
     # ------------------------------------------------------------ R19.4
     rule_19_4(rep, fx)
+    rule_19_5(rep, fx)
 
 
 def _reads_local(rv, l):
@@ -270,3 +271,43 @@ def rule_19_4(rep, fx):
         dom = all(P.every_path_passes(None, o, via_pos=[(sb, 'term') for sb in switch_blocks], from_entry=True) for o in oks)
         rep.check(dom, 'R19.4', '%s/guard-dominates' % name, 'every Ok(..) result is behind the state switch',
                   '%s has a path to an Ok(..) result that does not test the handshake state' % name, b.where())
+
+
+def rule_19_5(rep, fx):
+    """GUID <-> certificate binding (DDS Security 9.3.3): the first 48 bits of the participant GUID are derived from the SHA-256 of the DER of the certificate's SUBJECT name."""
+    rep.rule('R19.5', 'GUID binding input: guid_start_from_certificate hashes Certificate::subject_name_der(cert) of the certificate it is given, and subject_name_der encodes the '
+                      'X.509 subject name (not the issuer or any other name); validate_remote_guid compares the announced GUID with that value for the presented certificate')
+    sd = fx.find('security::certificate::Certificate::subject_name_der')
+    rep.analysed(sd)
+    og = Origins(sd)
+    names = [callee_res(t) for _bb, t in sd.calls() if callee_res(t).startswith('x509_certificate::X509Certificate::')]
+    encs = [(bb, t) for bb, t in sd.calls() if callee_res(t).endswith('::encode_ref')]
+    ok = names == ['x509_certificate::X509Certificate::subject_name'] and len(encs) == 1 and \
+        term_has(og.of_operand(encs[0][1]['args'][0], encs[0][0], 'term'), lambda x: x[0] == 'call' and x[1].endswith('X509Certificate::subject_name'))
+    rep.check(ok, 'R19.5', 'Certificate::subject_name_der/subject', 'DER of X509Certificate::subject_name()',
+              'Certificate::subject_name_der does not encode the certificate\'s subject name (it reads %s): the GUID is then bound to something every certificate of the same CA shares, '
+              'and a participant can take over the GUID of another one' % [n.rsplit('::', 1)[-1] for n in names], sd.where())
+    g = [x for x in fx.bodies if x.key.endswith('authentication::guid_start_from_certificate')]
+    if len(g) != 1:
+        raise CheckBroken('guid_start_from_certificate not found')
+    g = g[0]
+    rep.analysed(g)
+    ogg = Origins(g)
+    hashes = [(bb, t) for bb, t in g.calls() if callee_res(t).endswith('Sha256::hash')]
+    okg = len(hashes) == 1 and term_has(ogg.of_operand(hashes[0][1]['args'][0], hashes[0][0], 'term'),
+                                        lambda x: x[0] == 'call' and x[1].endswith('Certificate::subject_name_der') and x[2] and x[2][0] == ('param', 1))
+    rep.check(okg, 'R19.5', 'guid_start_from_certificate/hash-input', 'SHA-256 of subject_name_der(the given certificate)',
+              'guid_start_from_certificate does not hash the subject name DER of the certificate it was given', g.where())
+    v = [x for x in fx.bodies if x.key.endswith('authentication::validate_remote_guid')]
+    okv = False
+    if len(v) == 1:
+        rep.analysed(v[0])
+        ogv = Origins(v[0])
+        for bb, t in v[0].calls():
+            if callee_res(t).endswith('::eq') or callee_res(t).endswith('::ne'):
+                a = [ogv.of_operand(x, bb, 'term') for x in t['args']]
+                if any(term_has(y, lambda z: z[0] == 'call' and z[1].endswith('guid_start_from_certificate')) for y in a) and any(term_has(y, lambda z: z[0] == 'param') and not
+                       term_has(y, lambda z: z[0] == 'call' and z[1].endswith('guid_start_from_certificate')) for y in a):
+                    okv = True
+    rep.check(okv, 'R19.5', 'validate_remote_guid/compares', 'announced GUID start == guid_start_from_certificate(presented certificate)',
+              'validate_remote_guid does not compare the announced GUID with the value derived from the presented certificate', v[0].where() if v else '')
